@@ -200,6 +200,11 @@ fn build_bad_full(rng: &mut Rng, spec: &Spec, e: &Elem, chain: &[u64], depth: us
                 let pick: &Elem = *rng.pick(&leaves2);
                 children.push(sample_value(rng, pick));
             }
+            // now and then nothing else is wrong: every child is acceptable where it stands, but the nested master is never
+            // closed, so the Full as a whole cannot be closed (its End would not close the innermost open master)
+            if rng.chance(1, 3) {
+                return Some(Item::Full(e.id, children));
+            }
             // the bad child: something not allowed under the nested master either
             let bad: Vec<&Elem> = spec.elems.iter().filter(|x| x.ty != Ty::Master && !crate::spec::ref_path_match(&x.path, &ch2)).collect();
             if bad.is_empty() {
